@@ -789,6 +789,7 @@ pub fn c09_cases(rng: &mut Rng, tier: &str) -> (Vec<Case>, bool) {
 const PURE_INSPECTIONS: &[&str] = &[
     "PRINT X", "PRINT A$; B$", "PRINT I; J", "PRINT 1/0", "PRINT \"x\" + 1", "REM look", "PRINT X + Y * 2", "PRINT (1", "? N", ":",
     "PRINT FNA(3)", "PRINT FNA(\"s\")", "PRINT FNQ(1) + 1/0", "PRINT NOSUCH", "PRINT RND(0)", "PRINT ABS(-1); INT(2.5)",
+    "PRINT FNR(1)", "PRINT FNR(X) + 1", "PRINT FNS(2)", "PRINT ((((((((((((((((((((((((((((((((((((((((((((((((((1))))))))))))))))))))))))))))))))))))))))))))))))))",
 ];
 
 /// break + CONT at random turn boundaries, with side-effect-free inspection, vs the uninterrupted run
@@ -797,7 +798,10 @@ pub fn c07_cases(rng: &mut Rng, tier: &str) -> (Vec<Case>, bool) {
     let mut cases = vec![];
     let opts = GenOpts { allow_else_resume: rng.chance(1, 10), ..Default::default() };
     for _ in 0..n {
-        let p = program(rng, &opts);
+        let mut p = program(rng, &opts);
+        // functions whose call fails for reasons other than their arguments: runaway recursion, failing body
+        p.lines.insert(0, (1, "DEF FNR(X) = FNR(X) + 1".to_string()));
+        p.lines.insert(1, (2, "DEF FNS(X) = X / 0".to_string()));
         let replies = reply_pool(rng);
         let seed = rng.next() % 100000;
         let mut w = Walk::new(false, false);
